@@ -86,33 +86,63 @@ def enclosing_tests(root, node):
     return [(_resolve_flag(root, t), pol) for t, pol in out]
 
 
-def _resolve_flag(root, test):
-    """a local bound exactly once to a boolean expression (`is_feb_29 = not self._token_year and ...`; `if not is_feb_29: raise`) stands for
-    that expression wherever it is tested"""
-    if isinstance(test, ast.UnaryOp) and isinstance(test.op, ast.Not):
-        inner = _resolve_flag(root, test.operand)
-        return test if inner is test.operand else ast.UnaryOp(op=ast.Not(), operand=inner)
-    if not isinstance(test, ast.Name) or not isinstance(root, (ast.FunctionDef, ast.AsyncFunctionDef)):
+def _resolve_flag(root, test, _depth=0):
+    """a local bound exactly once to a boolean expression or to a plain attribute read (`is_feb_29 = not self._token_year and ...`;
+    `aware = settings.RETURN_AS_TIMEZONE_AWARE`; `if not is_feb_29: raise`) stands for that expression wherever it is tested - also as an
+    operand of and/or/not/comparisons inside the test"""
+    if not isinstance(root, (ast.FunctionDef, ast.AsyncFunctionDef)) or _depth > 2:
+        return test
+    names = {x.id for x in ast.walk(test) if isinstance(x, ast.Name) and isinstance(x.ctx, ast.Load)}
+    if not names:
         return test
     params = {a.arg for a in root.args.posonlyargs + root.args.args + root.args.kwonlyargs}
-    if test.id in params:
+    cache = getattr(root, "_sa_flagdefs", None)
+    if cache is None:
+        cache = {}
+        counts = {}
+        for n in ast.walk(root):
+            tgs = []
+            if isinstance(n, ast.Assign):
+                tgs = [(x, n) for t in n.targets for x in ast.walk(t) if isinstance(x, ast.Name)]
+            elif isinstance(n, (ast.AugAssign, ast.AnnAssign, ast.For, ast.NamedExpr)):
+                tgs = [(x, None) for x in ast.walk(n.target) if isinstance(x, ast.Name)]
+            elif isinstance(n, (ast.With,)):
+                tgs = [(x, None) for it in n.items if it.optional_vars is not None for x in ast.walk(it.optional_vars) if isinstance(x, ast.Name)]
+            elif isinstance(n, ast.ExceptHandler) and n.name:
+                counts[n.name] = counts.get(n.name, 0) + 2
+            for x, st in tgs:
+                counts[x.id] = counts.get(x.id, 0) + 1
+                cache[x.id] = st
+        for k in list(cache):
+            st = cache[k]
+            ok = counts.get(k) == 1 and st is not None and len(st.targets) == 1 and isinstance(st.targets[0], ast.Name)
+            if ok:
+                v = st.value
+                pure_attr = isinstance(v, ast.Attribute)
+                w = v
+                while isinstance(w, ast.Attribute):
+                    w = w.value
+                pure_attr = pure_attr and isinstance(w, ast.Name)
+                ok = isinstance(v, (ast.BoolOp, ast.Compare)) or (isinstance(v, ast.UnaryOp) and isinstance(v.op, ast.Not)) or pure_attr
+            if not ok:
+                del cache[k]
+            else:
+                cache[k] = st.value
+        try:
+            root._sa_flagdefs = cache
+        except Exception:
+            pass
+    subst = {n_: cache[n_] for n_ in names if n_ in cache and n_ not in params}
+    if not subst:
         return test
-    defs = []
-    for n in ast.walk(root):
-        if isinstance(n, ast.Assign):
-            for t in n.targets:
-                for x in ast.walk(t):
-                    if isinstance(x, ast.Name) and x.id == test.id:
-                        defs.append(n)
-        elif isinstance(n, (ast.AugAssign, ast.AnnAssign, ast.For, ast.NamedExpr)) :
-            tg = n.target
-            if any(isinstance(x, ast.Name) and x.id == test.id for x in ast.walk(tg)):
-                defs.append(None)
-    if len(defs) == 1 and defs[0] is not None and len(defs[0].targets) == 1 and isinstance(defs[0].targets[0], ast.Name) \
-            and isinstance(defs[0].value, (ast.BoolOp, ast.Compare, ast.UnaryOp)):
-        return defs[0].value
-    return test
+    import copy
 
+    class _Sub(ast.NodeTransformer):
+        def visit_Name(self, node):
+            if isinstance(node.ctx, ast.Load) and node.id in subst:
+                return _resolve_flag(root, copy.deepcopy(subst[node.id]), _depth + 1)
+            return node
+    return ast.fix_missing_locations(_Sub().visit(copy.deepcopy(test)))
 
 def conjuncts(test, polarity):
     """split a test into atomic (expr, polarity) facts that must all hold"""
